@@ -223,7 +223,7 @@ pub fn nest_xml(depth: usize, open: &str, close: &str, inner: &str) -> String {
 /// one mutation step; `other` is another corpus item for splicing
 pub fn mutate_once(rng: &mut Rng, b: &mut Vec<u8>, other: &[u8], desc: &mut String) {
     let n = b.len();
-    let k = rng.below(22);
+    let k = rng.below(24);
     desc.push_str(&format!(" m{}", k));
     match k {
         0 => {
@@ -360,7 +360,7 @@ pub fn mutate_once(rng: &mut Rng, b: &mut Vec<u8>, other: &[u8], desc: &mut Stri
         }
         19 => {
             // moderate nesting inside an existing array/dict/lib (deep nesting runs in child processes)
-            let d = *rng.pick(&[5usize, 20, 100, 400]);
+            let d = *rng.pick(&[5usize, 20, 60, 120]); // at most 4 steps: the total stays below DEPTH_CLASS
             let (open, close, inner) = *rng.pick(&[
                 ("<array>", "</array>", "<integer>1</integer>"),
                 ("<dict><key>k</key>", "</dict>", "<string>s</string>"),
@@ -374,6 +374,38 @@ pub fn mutate_once(rng: &mut Rng, b: &mut Vec<u8>, other: &[u8], desc: &mut Stri
             let occ = find_all(b, an);
             let at = if occ.is_empty() { rng.below(n as u64 + 1) as usize } else { occ[rng.below(occ.len() as u64) as usize] + if an.starts_with(b"</") { 0 } else { an.len() } };
             b.splice(at..at, s.into_bytes());
+        }
+        22 | 23 => {
+            // change the length of a flat plist array: drop or duplicate one scalar child
+            let opens = find_all(b, b"<array>");
+            if !opens.is_empty() {
+                let a0 = opens[rng.below(opens.len() as u64) as usize] + 7;
+                if let Some(rel) = find_all(&b[a0..], b"</array>").first() {
+                    let a1 = a0 + rel;
+                    let kids: Vec<(usize, usize)> = tags(&b[a0..a1]).into_iter().map(|(s, e)| (a0 + s, a0 + e)).collect();
+                    // children = pairs <x>..</x> of scalars
+                    let mut spans = vec![];
+                    let mut i = 0;
+                    while i + 1 < kids.len() {
+                        let open = &b[kids[i].0..kids[i].1];
+                        if !open.starts_with(b"</") && b[kids[i + 1].0..kids[i + 1].1].starts_with(b"</") {
+                            spans.push((kids[i].0, kids[i + 1].1));
+                            i += 2;
+                        } else {
+                            i += 1;
+                        }
+                    }
+                    if !spans.is_empty() {
+                        let (s0, s1) = spans[rng.below(spans.len() as u64) as usize];
+                        if rng.chance(2, 3) {
+                            b.drain(s0..s1);
+                        } else {
+                            let kid = b[s0..s1].to_vec();
+                            b.splice(s0..s0, kid);
+                        }
+                    }
+                }
+            }
         }
         20 => {
             // replace the content of a string/key element
@@ -518,40 +550,25 @@ fn case_glif(env: &mut Env, idx: u64, rng: &mut Rng, log: &mut CaseLog, keep: bo
     }
 }
 
-/// class predicate `ds-doctype-in-text`, on the bytes alone: a `<!DOCTYPE ..>` that sits inside the
-/// text content of an element (non-blank text before it since the previous tag, non-blank text
-/// after it up to an end tag)
+/// class predicate `ds-doctype-in-text`, on the bytes alone: a `<!DOCTYPE` (any letter case) that
+/// comes after the start tag of the root element, i.e. inside the document body, where XML does
+/// not allow one (the panic needs text or CDATA on both sides of it inside one element, possibly
+/// with comments or further declarations in between; the class is the simpler superset)
 pub fn doctype_in_text(b: &[u8]) -> bool {
-    for at in find_all(b, b"<!DOCTYPE") {
-        let before = &b[..at];
-        let prev = before.iter().rposition(|c| *c == b'>').map(|p| p + 1).unwrap_or(0);
-        if before[prev..].iter().all(|c| c.is_ascii_whitespace()) {
-            continue;
+    // the first `<` that opens an element (not `<?`, `<!`, `</`)
+    let mut root = None;
+    let mut i = 0;
+    while i + 1 < b.len() {
+        if b[i] == b'<' && (b[i + 1].is_ascii_alphabetic() || b[i + 1] == b'_' || b[i + 1] >= 0x80) {
+            root = Some(i);
+            break;
         }
-        // end of the declaration: the first `>` outside an internal subset `[ .. ]`
-        let mut depth = 0i32;
-        let mut end = None;
-        for (i, c) in b[at..].iter().enumerate() {
-            match c {
-                b'[' => depth += 1,
-                b']' => depth -= 1,
-                b'>' if depth <= 0 => {
-                    end = Some(at + i + 1);
-                    break;
-                }
-                _ => {}
-            }
-        }
-        let Some(end) = end else { continue };
-        let next = b[end..].iter().position(|c| *c == b'<').map(|p| end + p).unwrap_or(b.len());
-        if b[end..next].iter().all(|c| c.is_ascii_whitespace()) {
-            continue;
-        }
-        if b[next..].starts_with(b"</") {
-            return true;
-        }
+        i += 1;
     }
-    false
+    let Some(root) = root else { return false };
+    let body = &b[root..];
+    let lower: Vec<u8> = body.iter().map(|c| c.to_ascii_lowercase()).collect();
+    !find_all(&lower, b"<!doctype").is_empty()
 }
 
 fn case_ds(env: &mut Env, idx: u64, rng: &mut Rng, log: &mut CaseLog, keep: bool) {
@@ -1015,6 +1032,158 @@ pub fn witness_case(id: &str, work: &Path, log: &mut CaseLog) {
         }
         _ => {}
     }
+}
+
+// ------------------------------------------------------------------------------------ correspondence with the site models
+const CORR_NAMES: [&str; 5] = ["public.default", "a", "b", "c", ""];
+fn nidx(s: &str) -> u64 {
+    CORR_NAMES.iter().position(|n| *n == s).unwrap_or(4) as u64
+}
+fn ecode(e: &norad::error::NamingError) -> u64 {
+    use norad::error::NamingError::*;
+    match e {
+        Duplicate(_) => 1,
+        Missing(_) => 2,
+        ReservedName => 3,
+        Invalid(_) => 4,
+        _ => 8,
+    }
+}
+fn quiet<T>(f: impl FnOnce() -> T) -> Option<T> {
+    std::panic::catch_unwind(std::panic::AssertUnwindSafe(f)).ok()
+}
+
+/// cases for Run/C03.v: one `(case, observed)` pair per line, in Gallina syntax
+pub fn corr(seed: u64, thorough: bool, out: &Path) {
+    use crate::util::{g_str, Tm};
+    use std::fmt::Write as _;
+    let n = if thorough { 20_000 } else { 1_500 };
+    // ---- user_name_to_file_name
+    let alpha = ["a", "A", "z", "Z", "0", "9", ".", " ", "_", "/", ":", "é", "É", "ß", "日", "😀", "con", "aux", "COM1", "lpt1"];
+    let mut rng = super::case_rng(seed, "corr-u2f", 0);
+    let mut s = String::new();
+    for _ in 0..n {
+        let len = *rng.pick(&[0usize, 1, 2, 3, 4, 8, 60, 120, 126, 127, 128, 200, 245, 250, 251, 252, 253, 254, 255, 256, 257, 258, 300]);
+        let mut name = String::new();
+        while name.len() < len {
+            name.push_str(*rng.pick(&alpha));
+        }
+        let prefix = rng.pick(&["", "", "glyphs.", "A.", "é", "."]).to_string();
+        let suffix = match rng.below(8) {
+            0 => String::new(),
+            1 => ".é".to_string(),
+            2 => "x".repeat(*rng.pick(&[250usize, 253, 254, 255, 256, 300])),
+            3 => format!(".{}", "日".repeat(*rng.pick(&[80usize, 83, 84, 85]))),
+            _ => ".glif".to_string(),
+        };
+        let reject = *rng.pick(&[0u64, 0, 1, 1, 2, 5, 50, 99, 100, 120]);
+        let mut calls = 0u64;
+        let r = quiet(|| {
+            norad::user_name_to_file_name(&name, &prefix, &suffix, |_| {
+                calls += 1;
+                calls > reject
+            })
+        });
+        let obs = match r {
+            Some(p) => Tm::L(vec![Tm::N(0), Tm::s(&p.to_string_lossy())]),
+            None => Tm::L(vec![Tm::N(1), Tm::N(14)]),
+        };
+        let _ = writeln!(s, "(({}, {}, {}, {}%nat), {})", g_str(&name), g_str(&prefix), g_str(&suffix), reject, obs.to_string());
+    }
+    let _ = std::fs::write(out.join("corr_u2f.txt"), s);
+    // ---- layer histories
+    let mut rng = super::case_rng(seed, "corr-lc", 0);
+    let mut s = String::new();
+    for _ in 0..n {
+        let nops = 1 + rng.below(9);
+        let mut font = Font::new();
+        let mut ops = vec![];
+        let mut codes = vec![];
+        let mut panicked = false;
+        for _ in 0..nops {
+            let a = rng.below(5);
+            let b = rng.below(5);
+            let ow = rng.chance(1, 2);
+            let mask = rng.below(32);
+            let (txt, code): (String, Option<u64>) = match rng.below(11) {
+                0 | 1 | 2 => (format!("ONew {}", a), quiet(|| match font.layers.new_layer(CORR_NAMES[a as usize]) { Ok(_) => 0, Err(e) => ecode(&e) })),
+                3 => (format!("ORemove {}", a), quiet(|| if font.layers.remove(CORR_NAMES[a as usize]).is_some() { 0 } else { 5 })),
+                4 | 5 | 6 => (format!("ORename {} {} {}", a, b, ow), quiet(|| match font.layers.rename_layer(CORR_NAMES[a as usize], CORR_NAMES[b as usize], ow) { Ok(_) => 0, Err(e) => ecode(&e) })),
+                7 => (format!("OGet {}", a), quiet(|| match font.layers.get_or_create_layer(CORR_NAMES[a as usize]) { Ok(_) => 0, Err(e) => ecode(&e) })),
+                8 => (format!("ORetain {}", mask), quiet(|| { font.layers.retain(|l| (mask >> nidx(l.name())) & 1 == 1); 0 })),
+                9 => (format!("OAssign {} {}", a, b), quiet(|| {
+                    let v = font.layers.get(CORR_NAMES[b as usize]).cloned();
+                    match (font.layers.get_mut(CORR_NAMES[a as usize]), v) {
+                        (Some(slot), Some(v)) => { *slot = v; 0 }
+                        _ => 5,
+                    }
+                })),
+                _ => ("ODefault".to_string(), quiet(|| { let _ = font.layers.default_layer().name(); 0 })),
+            };
+            ops.push(format!("({})", txt));
+            match code {
+                Some(c) => codes.push(Tm::N(c)),
+                None => { panicked = true; break; }
+            }
+        }
+        let obs = if panicked {
+            Tm::L(vec![Tm::L(codes), Tm::L(vec![]), Tm::N(1)])
+        } else {
+            let st: Vec<Tm> = font.layers.iter().map(|l| Tm::L(vec![Tm::N(nidx(l.name())), Tm::b(l.is_default())])).collect();
+            Tm::L(vec![Tm::L(codes), Tm::L(st), Tm::N(0)])
+        };
+        let _ = writeln!(s, "([{}], {})", ops.join(";"), obs.to_string());
+    }
+    let _ = std::fs::write(out.join("corr_lc.txt"), s);
+    // ---- glyph histories on the default layer, then Font::save
+    let mut rng = super::case_rng(seed, "corr-lay", 0);
+    let mut s = String::new();
+    let tmp = out.join("corr_work");
+    let _ = std::fs::create_dir_all(&tmp);
+    for _ in 0..n {
+        let nops = 1 + rng.below(9);
+        let mut font = Font::new();
+        let mut ops = vec![];
+        let mut codes = vec![];
+        let mut panicked = false;
+        for _ in 0..nops {
+            let a = 1 + rng.below(3);
+            let b = 1 + rng.below(4);
+            let c = 1 + rng.below(4);
+            let ow = rng.chance(1, 2);
+            let mask = rng.below(32);
+            let layer = font.default_layer_mut();
+            let (txt, code): (String, Option<u64>) = match rng.below(12) {
+                0 | 1 | 2 | 3 => (format!("PInsert {}", a), quiet(|| { layer.insert_glyph(Glyph::new(CORR_NAMES[a as usize])); 0 })),
+                4 => (format!("PRemove {}", b), quiet(|| if layer.remove_glyph(CORR_NAMES[b as usize]).is_some() { 0 } else { 5 })),
+                5 | 6 | 7 => (format!("PRename {} {} {}", c, b, ow), quiet(|| match layer.rename_glyph(CORR_NAMES[c as usize], CORR_NAMES[b as usize], ow) { Ok(_) => 0, Err(e) => ecode(&e) })),
+                8 => ("PClear".to_string(), quiet(|| { layer.clear(); 0 })),
+                9 => (format!("PRetain {}", mask), quiet(|| { layer.retain(|n, _| (mask >> nidx(n)) & 1 == 1); 0 })),
+                10 => (format!("PEntryInsert {}", a), quiet(|| { layer.entry(Name::new(CORR_NAMES[a as usize]).unwrap()).or_insert(Glyph::new(CORR_NAMES[a as usize])); 0 })),
+                _ => (format!("PEntryRemove {}", a), quiet(|| {
+                    if let std::collections::btree_map::Entry::Occupied(o) = layer.entry(Name::new(CORR_NAMES[a as usize]).unwrap()) { o.remove(); 0 } else { 5 }
+                })),
+            };
+            ops.push(format!("({})", txt));
+            match code {
+                Some(c) => codes.push(Tm::N(c)),
+                None => { panicked = true; break; }
+            }
+        }
+        let obs = if panicked {
+            Tm::L(vec![Tm::L(codes), Tm::L(vec![]), Tm::N(3)])
+        } else {
+            let layer = font.default_layer();
+            let st: Vec<Tm> = (1..4).map(|i| Tm::L(vec![Tm::b(layer.contains_glyph(CORR_NAMES[i])), Tm::b(layer.get_path(CORR_NAMES[i]).is_some())])).collect();
+            let target = tmp.join("o.ufo");
+            let sv = match quiet(|| font.save(&target)) { Some(Ok(())) => 0, Some(Err(_)) => 2, None => 1 };
+            Tm::L(vec![Tm::L(codes), Tm::L(st), Tm::N(sv)])
+        };
+        let _ = writeln!(s, "([{}], {})", ops.join(";"), obs.to_string());
+    }
+    let _ = std::fs::write(out.join("corr_lay.txt"), s);
+    let _ = std::fs::remove_dir_all(&tmp);
+    println!("CORR done {}", n);
 }
 
 // ------------------------------------------------------------------------------------ names
